@@ -313,6 +313,11 @@ class Space:
             self.discharged += 1
             return
         c = as_z3_bool(cond)
+        robust = getattr(cond, "neg_robust", None)
+        if robust is not None:
+            # first look for a counterexample with a margin (one that survives the replay in doubles)
+            if self.check(robust) == z3.sat:
+                raise Violation(msg, self.assignment_from(self.solver.model()))
         r = self.check(z3.Not(c))
         if r == z3.unsat:
             self.discharged += 1
@@ -325,15 +330,19 @@ class Space:
     def eq(self, a, b, tol=0):
         if _is_native(a) and _is_native(b):
             return abs(a - b) <= tol + self.slack * (1 + abs(a) + abs(b))
-        d = to_real(a) - to_real(b)
-        if tol == 0:
-            return SymBool(d == 0)
-        return SymBool(z3.And(d <= to_real(tol), -d <= to_real(tol)))
+        ta, tb = to_real(a), to_real(b)
+        d = ta - tb
+        res = SymBool(d == 0) if tol == 0 else SymBool(z3.And(d <= to_real(tol), -d <= to_real(tol)))
+        res.neg_robust = zabs(d) > to_real(tol) + rat(1e-6) * (1 + zabs(ta) + zabs(tb))
+        return res
 
     def le(self, a, b, tol=0):
         if _is_native(a) and _is_native(b):
             return a <= b + tol + self.slack * (1 + abs(a) + abs(b))
-        return SymBool(to_real(a) <= to_real(b) + to_real(tol))
+        ta, tb = to_real(a), to_real(b)
+        res = SymBool(ta <= tb + to_real(tol))
+        res.neg_robust = ta - tb > to_real(tol) + rat(1e-6) * (1 + zabs(ta) + zabs(tb))
+        return res
 
 
 def _is_native(x):
@@ -413,10 +422,11 @@ def to_int(x):
 
 
 class SymBool:
-    __slots__ = ("t",)
+    __slots__ = ("t", "neg_robust")
 
     def __init__(self, t):
         self.t = t
+        self.neg_robust = None
 
     def __bool__(self):
         return Space.cur.decide(self.t)
